@@ -199,7 +199,11 @@ def _job(args):
     out = {"sk": sk_idx, "refuted": [], "raised": [], "unsupported": [], "unknown": [], "samples": [],
            "nontrivial": 0, "functions": [], "tie_paths": 0}
 
+    from . import pdcore
+    base_mode = getattr(h, "TIE_MODE", "adversarial")
+
     def path_fn(ex_):
+        pdcore.TIE_MODE["mode"] = sk.get("params", {}).get("tie_mode", base_mode)
         ctx = SymCtx(sk, ex_, mods)
         h.run(ctx)
         ctx.flush()
@@ -391,6 +395,16 @@ def run_check(hname, tier, jobs=None, budget_s=None):
             l.startswith("raised:") for l in labels))
         if res.get("assume_failed"):
             reproduced = False
+        if not reproduced and getattr(h, "REPLICABLE", False) and res.get("status") == "ok":
+            # an unstable-sort tie order only shows natively on longer arrays: the same witness, every
+            # pair replicated 4 times (still a valid trace of the family), must satisfy the same obligations
+            import copy as _copy
+            sk4 = _copy.deepcopy(sk)
+            sk4.setdefault("params", {})["replicate"] = getattr(h, "REPLICATE_FACTOR", 10)
+            res4 = replay_native(hname, sk4, c["model"], outdir + "-xN")
+            fails4 = res4.get("failures", []) if res4.get("status") == "ok" else []
+            if c["label"] in {f["label"] for f in fails4} and not res4.get("assume_failed"):
+                reproduced, fails, outdir, sk = True, fails4, outdir + "-xN", sk4
         if not reproduced:
             diverged.append({"label": c["label"], "skeleton": sk.get("id"), "replay": outdir,
                              "native": res.get("status"), "native_failures": sorted(labels),
